@@ -114,6 +114,21 @@ def install_seams() -> None:
         mmb.datetime = _VDatetime
     except Exception:  # pragma: no cover
         pass
+    # pysasl re-scans the installed packages' entry points for every
+    # SASLAuth.defaults() call, i.e. for every connection (3-12 ms of metadata
+    # file reads).  The result only depends on what is installed: memoise the
+    # (name, class) pairs; mechanism objects are still created per call.
+    import pysasl
+    from importlib.metadata import entry_points as _eps
+    _cache: list = []
+
+    def _get_builtin(cls):
+        if not _cache:
+            group = pysasl.mechanism.__package__
+            _cache.extend((ep.name, ep.load()) for ep in _eps(group=group))
+        for name, mech_cls in _cache:
+            yield mech_cls(name)
+    pysasl.SASLAuth._get_builtin_mechanisms = classmethod(_get_builtin)
     from pymap.imap.state import ConnectionState
     orig_init = ConnectionState.__init__
 
@@ -357,7 +372,8 @@ class MaildirWorld(World):
     def __init__(self, *, layout: str = '++', users=None, seed: int = 0,
                  root: str | None = None, reuse: bool = False,
                  time_offset: float = 0.0, tmp_other_fs: bool = False,
-                 bad_command_limit: int | None = 5) -> None:
+                 bad_command_limit: int | None = 5,
+                 jail_cheap: bool = False) -> None:
         super().__init__(seed)
         from . import fsjail
         import tempfile
@@ -380,7 +396,7 @@ class MaildirWorld(World):
         # maildir compares the clock with real file mtimes
         self._saved_time_base = TIME_BASE
         TIME_BASE = _real_time() + time_offset
-        self.jail = fsjail.Jail(self.root)
+        self.jail = fsjail.Jail(self.root, cheap=jail_cheap)
         self.jail.__enter__()
         self.tmp_other_fs = tmp_other_fs
         users = users if users is not None else {'alice': ('pw', ())}
